@@ -161,7 +161,8 @@ static void* console_worker_proc_win32(void* ctx) {
                 /* Post completion to wake main thread */
                 async_runtime_post_completion(cctx->runtime, cctx->completion_key, chars_read);
             } else {
-                /* EOF */
+                /* EOF: tell the main thread (a completion without data) */
+                async_runtime_post_completion(cctx->runtime, cctx->completion_key, 0);
                 break;
             }
         } else if (wait_result == WAIT_OBJECT_0 + 1) {
@@ -218,8 +219,10 @@ static void* console_worker_proc_posix(void* ctx) {
             debug_message("read() failed: %s\n", strerror(errno));
             break;
         } else if (bytes_read == 0) {
-            /* EOF */
+            /* EOF: tell the main thread, it is the one that reacts to the end of the
+             * input (a completion without data: data is the number of bytes read) */
             debug_message("Console EOF detected\n");
+            async_runtime_post_completion(cctx->runtime, cctx->completion_key, 0);
             break;
         }
 
